@@ -78,6 +78,9 @@ type Ctx struct {
 	Samples     []any
 	Exhaustive  bool
 
+	// OnlyAnalysed, when set, replaces the list of analysed packages (positive controls)
+	OnlyAnalysed map[string]bool
+
 	declOf map[*types.Func]*ast.FuncDecl
 	fileOf map[*ast.FuncDecl]*packages.Package
 }
@@ -147,6 +150,31 @@ func Load(prop, tier, repoDir, goarch string, needSSA bool) (*Ctx, error) {
 	return c, nil
 }
 
+// LoadDir loads a single package pattern from dir (used for positive controls) with SSA; only pkgPath is "analysed".
+func LoadDir(dir, pattern, pkgPath string) (*Ctx, error) {
+	c := &Ctx{Prop: "control", Tier: "quick", RepoDir: dir, Start: time.Now(), Units: map[string]int{}, ByPath: map[string]*packages.Package{},
+		OnlyAnalysed: map[string]bool{pkgPath: true}}
+	c.Fset = token.NewFileSet()
+	cfg := &packages.Config{Mode: packages.LoadAllSyntax, Dir: dir, Env: goEnv(""), Fset: c.Fset}
+	pkgs, err := packages.Load(cfg, pattern)
+	if err != nil || len(pkgs) == 0 {
+		return nil, fmt.Errorf("load %s: %v", pattern, err)
+	}
+	for _, p := range pkgs {
+		if len(p.Errors) > 0 {
+			return nil, fmt.Errorf("load %s: %v", pattern, p.Errors[0])
+		}
+	}
+	c.Roots = pkgs
+	packages.Visit(pkgs, nil, func(p *packages.Package) { c.ByPath[p.PkgPath] = p })
+	prog, _ := ssautil.AllPackages(pkgs, ssa.InstantiateGenerics)
+	prog.Build()
+	c.Prog = prog
+	c.declOf = map[*types.Func]*ast.FuncDecl{}
+	c.fileOf = map[*ast.FuncDecl]*packages.Package{}
+	return c, nil
+}
+
 func (c *Ctx) indexDecls() {
 	c.declOf = map[*types.Func]*ast.FuncDecl{}
 	c.fileOf = map[*ast.FuncDecl]*packages.Package{}
@@ -188,6 +216,9 @@ func (c *Ctx) AnalysedPkgs() []*packages.Package {
 func (c *Ctx) IsAnalysed(p *types.Package) bool {
 	if p == nil {
 		return false
+	}
+	if c.OnlyAnalysed != nil {
+		return c.OnlyAnalysed[p.Path()]
 	}
 	for _, a := range Analysed {
 		if a == p.Path() {
